@@ -70,3 +70,11 @@ def witness_for(ob, devs, run_oracle):
 
 ENGINE_B_FUNCTIONS = [(FM.F, '%s.%s' % (c, m)) for c in sorted(FM.FORMS) + ['_polynomial'] for m in ('__call__', 'deriv', 'deriv2')]
 ENGINE_B_FUNCTIONS += [(F_UTIL, '_rpartial.__call__'), (F_FORMS, '_FunctionFactory.__call__'), (F_PF, 'Potential_Form.__call__'), (F_PF, '_Check_Call.required_arg_len'), (F_PY, '_Python_Potential_Function.__call__'), (F_CX, '_Cexptrk_Potential_Function.__call__'), (F_REG, 'Potential_Form_Registry._register_standard')]
+
+MODULE_MUTANTS = [
+    (FM.F, "return A * math.exp(-r/rho) - (C/r**6)", "return rho * math.exp(-r/A) - (C/r**6)", '_buck.__call__'),
+    (F_UTIL, "return self.func(*(args + self.args), **kwargs)", "return self.func(*(self.args + args), **kwargs)", '_rpartial'),
+    (F_PF, "argl = argl-1", "argl = argl", 'required_arg_len'),
+    (FM.F, "Ck2=0.5099", "Ck2=0.5098", '_zbl.__call__'),
+    (FM.F, "def __call__(self, r, gamma, r_star, D):", "def __call__(self, r, r_star, gamma, D):", '_morse.__call__'),
+]
